@@ -168,10 +168,15 @@ theorem C05_tcp_cli (vpn : Bool) (names : List String) (r : Req) (rndId rndPort 
     (hr : ReqOK vpn r.srcIP r.dstIP r.srcMAC r.dstMAC r.dstPort)
     (hid : rndId < 65535) (hp : rndPort < 28232) (hs : rndSeq < 2 ^ 32) :
     ∃ frame t, fillTCP vpn (flagsOfNames tcpFlagTable names) r rndId rndPort rndSeq = .ok frame ∧
-      tcpFields ((datagram vpn frame 52).drop 20) = some t ∧ t.flags = flagSet names := by
-  obtain ⟨e, hlt⟩ := C05_cli_tcp_flags names h
-  obtain ⟨frame, hok, -, -, -, -, ht, -⟩ := C05_tcp vpn (flagsOfNames tcpFlagTable names) r rndId rndPort rndSeq hr (e ▸ hlt) hid hp hs
-  exact ⟨frame, _, hok, ht, e⟩
+      tcpFields ((datagram vpn frame 52).drop 20) = some t ∧ t.flags = flagSet names :=
+  Proofs.Fill.tcp_cli vpn names r rndId rndPort rndSeq h hr hid hp hs
+
+/-- the fixed-flag subcommands (`tcp syn`, `tcp fin`, `tcp null`, `tcp xmas`): the flag set their filler options
+    give the header, over the option lists regenerated from command/tcp_*.go, is the set that defines the
+    scan type: SYN; FIN; none; FIN+PSH+URG -/
+theorem C05_subcommand_flags :
+    tcpSubcommandFlags.map (fun e => (e.1, e.2.foldl (fun acc f => acc ||| tcpFieldBit f) 0)) =
+      [("syn", 2), ("fin", 1), ("null", 0), ("xmas", 1 + 8 + 32)] := by decide
 
 /-- `--ipflags`: every value the parser can return (C18_ipflags_exact: the union of the table bits of the
     names) fits the 3-bit field, i.e. satisfies the `o.flags < 8` hypothesis of `C05_udp` / `C05_icmp`;
